@@ -16,7 +16,7 @@ from furax._base.core import AbstractLinearOperator
 
 from .. import dense, gen
 from ..core import LOG, enable, guarded
-from ..workload import Ctx, drive
+from ..workload import Ctx, drive, generate
 from .common import rand_operator, struct_kind
 
 ISOP = lambda z: isinstance(z, lx.AbstractLinearOperator)  # noqa: E731
@@ -78,8 +78,41 @@ def check_declared(op: Any) -> None:
     dense.walk(op, visit)
 
 
+def mixed_stokes_operator(rng: Any) -> tuple[Any, Any]:
+    """A Stokes container whose components have DIFFERENT dtypes (a legal pytree) under operators that act component by
+    component: every component keeps its own dtype."""
+    import jax.numpy as jnp
+    from furax._base.core import HomothetyOperator, IdentityOperator
+    from furax.operators.hwp import HWPOperator
+    gen.begin_case(rng)
+    cls = gen.pick(rng, gen.STOKES[1:])
+    shape = gen.pick(rng, [(3,), (2, 3), (4,)])
+    narrow, wide = (np.float32, np.float64) if gen.X64 else (np.float16, np.float32)
+    comps = [gen.S(shape, narrow if rng.integers(2) else wide) for _ in cls.stokes]
+    if len({np.dtype(c.dtype) for c in comps}) == 1:
+        comps[0] = gen.S(shape, wide if np.dtype(comps[0].dtype) == np.dtype(narrow) else narrow)
+    s = cls(*comps)
+    kind = gen.pick(rng, ['hwp', 'hwp', 'hwp@index', 'scalar@hwp', 'identity', 'index'])
+    if kind == 'hwp':
+        op: Any = HWPOperator(s)
+    elif kind == 'hwp@index':
+        ix = gen.a_index(rng, s)
+        op = HWPOperator(ix.out_structure()) @ ix if ix is not None and gen.is_stokes(ix.out_structure()) else HWPOperator(s)
+    elif kind == 'scalar@hwp':
+        op = HomothetyOperator(2.0, s) @ HWPOperator(s)
+    elif kind == 'identity':
+        op = IdentityOperator(s)
+    else:
+        op = gen.a_index(rng, s) or HWPOperator(s)
+    LOG.count('C05.mixed-stokes', kind)
+    return s, op
+
+
 def case(rng: Any, ctx: Ctx, index: int) -> None:
-    s, op = rand_operator(rng, ctx, atoms=0.35, lazy_inverse=bool(rng.integers(4) == 0), index=index)
+    if index % 20 == 19:
+        s, op = generate(lambda: mixed_stokes_operator(rng))
+    else:
+        s, op = rand_operator(rng, ctx, atoms=0.35, lazy_inverse=bool(rng.integers(4) == 0), index=index)
     override = type(op).out_structure is not AbstractLinearOperator.out_structure
     dts = sorted({np.dtype(l.dtype).name for l in dense.leaves(s)})
     LOG.case_key(f'{dense.skeleton(op)}|{"+".join(dts)}|x64={ctx.x64}|{struct_kind(s)}', override)
@@ -125,8 +158,8 @@ def case_pattern(rng: Any, ctx: Ctx, index: int) -> None:
     from .. import patterns
     gen.begin_case(rng)
     names = sorted(patterns.PATTERNS)
-    rr = ([('blocks', f) for f in range(4)] + [('nearmiss', f) for f in range(patterns.N_NEARMISS)]
-          + [(n, None) for n in names if n not in ('blocks', 'nearmiss')])
+    rr = ([('blocks', f) for f in range(4)] + [(n, None) for n in names if n not in ('blocks', 'nearmiss')]
+          + [('nearmiss', f) for f in range(patterns.N_NEARMISS)])      # documented patterns first: every rule fires early in every shard
     name, form = rr[(index // max(1, ctx.nshards)) % len(rr)]
     if name == 'blocks':
         tag, seg = patterns.p_blocks(rng, form)
